@@ -73,21 +73,62 @@ def check_property_file(pid, res):
     return False, first_error(log)
 
 
-def forbidden_scan():
-    """grep for anything that would weaken the development"""
+def closure(roots):
+    """transitive closure of SquidV.* modules required by the given .v files (paths relative to coq/)"""
+    seen, todo = [], list(roots)
+    while todo:
+        f = todo.pop()
+        if f in seen or not os.path.exists(os.path.join(COQ, f)):
+            continue
+        seen.append(f)
+        txt = re.sub(r"\(\*.*?\*\)", "", open(os.path.join(COQ, f)).read(), flags=re.S)
+        for stmt in re.findall(r"(?:From\s+SquidV\s+)?Require\s+(?:Import\s+|Export\s+)?([^.]*(?:\.[A-Za-z_][^.\s]*)*)\s*\.(?=\s)", txt):
+            pass
+        for m in re.finditer(r"SquidV\.((?:gen\.)?[A-Za-z0-9_']+)", txt):
+            todo.append(m.group(1).replace(".", "/") + ".v")
+        for m in re.finditer(r"From\s+SquidV\s+Require\s+(?:Import|Export)?\s+([^.]+)\.", txt):
+            for name in m.group(1).split():
+                todo.append(name.replace(".", "/") + ".v")
+    return sorted(seen)
+
+
+def forbidden_scan(pid=None):
+    """grep for anything that would weaken the development; restricted to the dependency closure of
+    Properties_<pid>.v (plus its Extract file's closure is covered by the same models) when pid is given"""
     bad = []
     pat = re.compile(r"\b(Admitted|admit|Axiom|Axioms|Parameter|Parameters|Conjecture|Admit Obligations|"
                      r"Unset Guard Checking|Unset Positivity Checking|Unset Universe Checking|bypass_check|"
                      r"type-in-type|impredicative-set)\b")
-    for root, _, files in os.walk(COQ):
-        for f in files:
-            if f.endswith(".v"):
-                with open(os.path.join(root, f)) as fh:
-                    for i, line in enumerate(fh, 1):
-                        s = re.sub(r"\(\*.*?\*\)", "", line)
-                        if pat.search(s):
-                            bad.append("%s:%d: %s" % (f, i, line.strip()))
+    if pid:
+        files = closure(["Properties_%s.v" % pid])
+    else:
+        files = []
+        for root, _, fs in os.walk(COQ):
+            for f in fs:
+                if f.endswith(".v"):
+                    files.append(os.path.relpath(os.path.join(root, f), COQ))
+    for f in files:
+        with open(os.path.join(COQ, f)) as fh:
+            txt = fh.read()
+        txt = re.sub(r"\(\*.*?\*\)", lambda m: "\n" * m.group(0).count("\n"), txt, flags=re.S)
+        for i, line in enumerate(txt.split("\n"), 1):
+            if pat.search(line):
+                bad.append("%s:%d: %s" % (f, i, line.strip()))
+            if re.match(r"\s*(Variable|Variables|Hypothesis|Hypotheses|Context)\b", line) and not _in_section(txt, i):
+                bad.append("%s:%d: %s (outside a Section)" % (f, i, line.strip()))
     return bad
+
+
+def _in_section(txt, lineno):
+    depth = 0
+    for i, line in enumerate(txt.split("\n"), 1):
+        if i >= lineno:
+            break
+        if re.match(r"\s*Section\s+\w+", line):
+            depth += 1
+        elif re.match(r"\s*End\s+\w+", line) and depth > 0:
+            depth -= 1
+    return depth > 0
 
 
 def build_runner(area="tok"):
